@@ -9,6 +9,7 @@ CONSTANTS
   BgFix = TRUE
   TrackAttribution = FALSE
   AttrEscapes = 0
+  KvSafeProp = "unsupported"
   EmitEdges = FALSE
 INIT Init
 NEXT Next
